@@ -1,0 +1,134 @@
+/*
+ * Verification hooks (cargo feature "verif", off by default).
+ *
+ * Nothing in this file is compiled unless the feature is enabled. The hooks only
+ * observe: a step counter for the loops of the evaluation pipeline, a log of token
+ * rewrites and a canonical dump of the configuration state.
+ */
+
+extern crate std;
+
+use std::cell::{Cell, RefCell};
+use std::thread_local;
+use alloc::format;
+use alloc::rc::Rc;
+use alloc::string::{String, ToString};
+use alloc::vec::Vec;
+use core::fmt::Write;
+use core::ops::Deref;
+
+use crate::SmartCalcConfig;
+use crate::tokinizer::{RuleType, TokenInfo, TokenInfoStatus};
+
+thread_local! {
+    static STEPS: Cell<u64> = Cell::new(0);
+    static BUDGET: Cell<u64> = Cell::new(u64::MAX);
+    static LOG_ON: Cell<bool> = Cell::new(false);
+    static LOG: RefCell<Vec<Rewrite>> = RefCell::new(Vec::new());
+    static LINES: RefCell<Vec<String>> = RefCell::new(Vec::new());
+}
+
+#[derive(Debug, Clone)]
+pub struct Rewrite {
+    pub stage: &'static str,
+    pub name: String,
+    pub active_before: usize,
+    pub active_after: usize
+}
+
+/// Start a new observation window: the step counter is reset, `budget` loop
+/// iterations are allowed before `tick` panics, rewrites are logged iff `log`.
+pub fn reset(budget: u64, log: bool) {
+    STEPS.with(|s| s.set(0));
+    BUDGET.with(|b| b.set(budget));
+    LOG_ON.with(|l| l.set(log));
+    LOG.with(|l| l.borrow_mut().clear());
+    LINES.with(|l| l.borrow_mut().clear());
+}
+
+pub fn steps() -> u64 {
+    STEPS.with(|s| s.get())
+}
+
+pub fn take_rewrites() -> Vec<Rewrite> {
+    LOG.with(|l| l.borrow_mut().drain(..).collect())
+}
+
+/// The evaluation of one line of a session starts.
+pub fn line(text: &str) {
+    if LOG_ON.with(|l| l.get()) {
+        LINES.with(|l| l.borrow_mut().push(text.to_string()));
+    }
+}
+
+pub fn take_lines() -> Vec<String> {
+    LINES.with(|l| l.borrow_mut().drain(..).collect())
+}
+
+/// One loop iteration of the evaluation pipeline at `site`.
+pub fn tick(site: &'static str) {
+    let steps = STEPS.with(|s| { s.set(s.get() + 1); s.get() });
+    if steps > BUDGET.with(|b| b.get()) {
+        BUDGET.with(|b| b.set(u64::MAX));
+        panic!("verif: step budget exceeded at {}", site);
+    }
+}
+
+pub fn active(tokens: &[Rc<TokenInfo>]) -> usize {
+    tokens.iter().filter(|token| token.status.get() == TokenInfoStatus::Active && token.token_type.borrow().is_some()).count()
+}
+
+pub fn rewrite(stage: &'static str, name: &str, active_before: usize, tokens: &[Rc<TokenInfo>]) {
+    if LOG_ON.with(|l| l.get()) {
+        LOG.with(|l| l.borrow_mut().push(Rewrite { stage, name: name.to_string(), active_before, active_after: active(tokens) }));
+    }
+}
+
+fn dump_tokens(buffer: &mut String, tokens_list: &[Vec<Rc<TokenInfo>>]) {
+    for tokens in tokens_list.iter() {
+        buffer.push_str("    [");
+        for token in tokens.iter() {
+            let status = match token.status.get() {
+                TokenInfoStatus::Active => "A",
+                TokenInfoStatus::Removed => "R"
+            };
+            write!(buffer, " {}:{:?}", status, token.token_type.borrow().deref()).unwrap_or_default();
+        }
+        buffer.push_str(" ]\n");
+    }
+}
+
+/// Canonical text dump of the semantic configuration state.
+pub fn fingerprint(config: &SmartCalcConfig) -> String {
+    let mut buffer = String::new();
+    write!(buffer, "sep dec={:?} thou={:?}\n", config.decimal_seperator, config.thousand_separator).unwrap_or_default();
+    write!(buffer, "number {:?}\npercent {:?}\nmoney {:?}\n", config.number_config, config.percentage_config, config.money_config).unwrap_or_default();
+    write!(buffer, "zone {:?} {}\n", config.timezone, config.timezone_offset).unwrap_or_default();
+    for (currency, rate) in config.currency_rate.iter() {
+        write!(buffer, "rate {} {:?}\n", currency.code, rate).unwrap_or_default();
+    }
+    for (language, rules) in config.rule.iter() {
+        for (index, rule) in rules.iter().enumerate() {
+            match rule {
+                RuleType::Internal { function_name, tokens_list, .. } => {
+                    write!(buffer, "rule {} {} internal {}\n", language, index, function_name).unwrap_or_default();
+                    dump_tokens(&mut buffer, tokens_list);
+                },
+                RuleType::API { tokens_list, rule } => {
+                    write!(buffer, "rule {} {} api {}\n", language, index, rule.name()).unwrap_or_default();
+                    dump_tokens(&mut buffer, tokens_list);
+                }
+            }
+        }
+    }
+    for (name, items) in config.types.iter() {
+        for (index, item) in items.iter() {
+            write!(buffer, "type {} {} format={:?} up={:?} down={:?} names={:?} digits={:?} round={:?} remove={:?}\n", name, index, item.format, item.upgrade_code, item.downgrade_code, item.names, item.decimal_digits, item.use_fract_rounding, item.remove_fract_if_zero).unwrap_or_default();
+            dump_tokens(&mut buffer, &item.parse);
+        }
+    }
+    for conversion in config.type_conversion.iter() {
+        buffer.push_str(&format!("conversion {:?}\n", conversion));
+    }
+    buffer
+}
